@@ -602,7 +602,7 @@ func (g *Gen) Valid() Fragment {
 			}
 			if g.T.Bool(1, 4) {
 				if du := g.dirUse(t.Dirs); du != "" {
-					return Fragment{Kind: "extend_object_dir", Text: fmt.Sprintf("extend type %s %s\n", t.Name, du), Mutates: true}
+					return Fragment{Kind: "extend_object_dir", Text: fmt.Sprintf("extend type %s %s {\n}\n", t.Name, du), Mutates: true}
 				}
 			}
 			var b strings.Builder
